@@ -298,8 +298,8 @@ func TestInsertions(t *testing.T) {
 		n := rapid.IntRange(1, 4).Draw(t, "nitems")
 		var uses []catalog.Use
 		for k := 0; k < n; k++ {
-			it := pool[rapid.IntRange(0, len(pool)-1).Draw(t, "item")]
-			uses = append(uses, catalog.Use{Item: it.ID, Ctx: rapid.IntRange(0, len(catalog.Contexts)-1).Draw(t, "ctx")})
+			it := pool[gen.Uniform(t, "item", len(pool))]
+			uses = append(uses, catalog.Use{Item: it.ID, Ctx: gen.Uniform(t, "ctx", len(catalog.Contexts))})
 		}
 		checkUses(t, "TestInsertions", Case{Base: base, Uses: uses})
 	})
